@@ -11,9 +11,10 @@ from vlib.gen import graphs as H
 
 PID = "C09"
 TITLE = "Shortest paths are valid edge paths of minimum length"
-LEAN_MODULES = ["Mouette.Props.C09"]
+LEAN_MODULES = ["Mouette.Props.C09", "Mouette.Props.C09PathMesh"]
 REQUIRED_THEOREMS = ["reach_run", "run_terminates", "path_valid", "dijkstra_optimal", "dijkstra_optimal_one",
-                     "reachable_iff_walk", "vertex_set_path_valid", "vertex_set_nearest", "popOK_firstMin"]
+                     "reachable_iff_walk", "vertex_set_path_valid", "vertex_set_nearest", "popOK_firstMin",
+                     "border_path_nearest", "border_none_iff", "build_path_spec", "path_mesh_segments_are_edges"]
 TRUSTED = [
     "Lean 4.33.0 kernel; axioms ⊆ {propext, Classical.choice, Quot.sound}",
     "hand-written model Mouette/Model/Dijkstra.lean (loop of paths.py:72-84 / 178-190 with lazy deletion, back-tracking 86-94 / "
@@ -111,6 +112,8 @@ def _run(case):
             weights = m.edges.create_attribute("w_c09", float, dense=(case["wseed"] % 2 == 0))
             for e in range(len(edges)): weights[e] = float(wl[e])
     out = {"graph": [len(m.vertices), [(a, b, H.frac_str(w)) for (a, b), w in zip(edges, wl)]]}
+    if case["q"] == "border":
+        out["bflags"] = [1 if m.is_edge_on_border(a, b) else 0 for a, b in edges]
     try:
         if case["q"] == "sp":
             res = P.shortest_path(m, case["start"], _targets_arg(case), weights=weights, export_path_mesh=case["export"])
@@ -141,22 +144,31 @@ def impl_observe(case):
     return json.dumps(o, sort_keys=True)
 
 
+def _pm_tokens(case, o):
+    """optional trailing section: the returned paths (dict order) for the model of build_path"""
+    if not (case["export"] and o["r"] == "ok" and "pm" in o): return []
+    ps = list(o["paths"].values())
+    if any(v is None for p in ps for v in p): return []
+    toks = ["pm", str(len(ps))]
+    for p in ps: toks += [str(len(p))] + [str(v) for v in p]
+    return toks
+
+
 def model_request(case):
-    g = _run(case)["graph"]
-    n, wedges = g
+    o = _run(case)
+    n, wedges = o["graph"]
+    if case["q"] == "border":
+        toks = ["border", str(n), str(len(wedges))]
+        for (a, b, w), f in zip(wedges, o["bflags"]): toks += [str(a), str(b), w, str(f)]
+        toks.append(str(case["start"]))
+        return " ".join(toks + _pm_tokens(case, o))
     toks = ["sp" if case["q"] == "sp" else "set", str(n), str(len(wedges))]
     for a, b, w in wedges: toks += [str(a), str(b), w]
     toks.append(str(case["start"]))
-    if case["q"] == "border":
-        ts = sorted({v for e in H.border_edges_of(case["mesh"]) for v in e})
-        if not ts: return None      # "Mesh has no border": raised before any path code
-    elif case["q"] == "sp":
-        ts = sorted(set(case["targets"]))
-    else:
-        ts = list(case["targets"])
+    ts = sorted(set(case["targets"])) if case["q"] == "sp" else list(case["targets"])
     if any(t < 0 or t >= n for t in ts) or not ts: return None
     toks.append(str(len(ts))); toks += [str(t) for t in ts]
-    return " ".join(toks)
+    return " ".join(toks + _pm_tokens(case, o))
 
 
 def _path_weight(path, wmap):
@@ -173,8 +185,20 @@ def compare(case, model, impl):
     o = _run(case)
     n, wedges = o["graph"]
     wmap = {H.key2(a, b): Fraction(w) for a, b, w in wedges}
+    model, _, pm_part = model.partition(" | ")
     toks = model.split()
     if toks[0] == "bad-request": return "model rejected the request"
+    if toks[0] == "err:NoBorder":
+        return None if o["r"] == "err:Other(Exception)" else f"model: mesh has no border, implementation gave {o['r']}"
+    if pm_part:
+        # exported polyline vs the model of build_path (exact: vertex coordinates in order, edge index pairs in order)
+        vpart, _, epart = pm_part.partition(" E:")
+        vs = [int(t) for t in vpart[2:].split()]
+        es = [[int(x) for x in e.split("-")] for e in epart.split(",") if e]
+        V = case["mesh"]["V"]
+        want_v = [[H.frac_str(Fraction(float(c))) for c in V[v]] for v in vs]
+        if o["pm"][0] != want_v: return "exported polyline vertices differ from the model of build_path"
+        if o["pm"][1] != es: return f"exported polyline edges differ from the model of build_path: {o['pm'][1][:6]} vs {es[:6]}"
     if toks[0].startswith("err:"):
         # unreachable target: back-tracking reads path[None] -> KeyError
         return None if o["r"] == toks[0] else f"model {toks[0]} (unreachable target) but implementation gave {o['r']}"
@@ -356,7 +380,9 @@ MANIFEST = {
                    "tie-breaking the loop terminates within 1+sum(deg) iterations, the predecessor back-tracking terminates and returns, for "
                    "every vertex connected to the start, a path that begins at start, ends at the target, follows adjacencies and whose weight "
                    "equals the final label, which is <= the weight of every walk (optimality); the vertex-set variant (virtual sink at weight "
-                   "0) returns a member of the set at minimum distance with a shortest path to it lying in the original graph. The model is "
+                   "0) returns a member of the set at minimum distance with a shortest path to it lying in the original graph; the border query "
+                   "is that variant on the end points of the border-flagged edges; the exported polyline (build_path) has exactly the consecutive "
+                   "pairs of every path as edges, offset by the running vertex count, each joining adjacent mesh vertices. The model is "
                    "tied to the Python code by a correspondence on generated meshes (validity + exact total weight) and a direct oracle "
                    "(independent exact Bellman-Ford)."),
     "level_note": ("Trusted: Lean kernel + propext/Classical.choice/Quot.sound; the hand-written model (checked against the code on the "
